@@ -399,6 +399,58 @@ def unit_fd_native_bounded():
     return Unit('fd-native/short-axes', run, funcs=[DO + 'finite_diff'], kind='B', bounded_in='axis lengths 2 .. 7, all methods x pad modes')
 
 
+def ops_linear_flag_case(case):
+    """native: the is_linear flag of a difference operator is truthful (a linear operator is additive and homogeneous, an affine one with a non-zero constant is flagged
+    non-linear), and right scalar multiplication follows the table (op * a)(x) == op(a x)"""
+    import os
+    import sys
+    root = os.environ.get('PYVC_REPO', '/repo')
+    if root not in sys.path:
+        sys.path.insert(0, root)
+    import warnings
+    warnings.filterwarnings('ignore')
+    import numpy as np
+    import odl
+    cname, pad, c = case['class'], case['pad_mode'], case['pad_const']
+    X = odl.uniform_discr([0, 0], [1, 2], (4, 5))
+    kw = dict(pad_mode=pad, pad_const=c)
+    op = {'PartialDerivative': lambda: odl.PartialDerivative(X, 1, **kw), 'Gradient': lambda: odl.Gradient(X, **kw), 'Divergence': lambda: odl.Divergence(range=X, **kw),
+          'Laplacian': lambda: odl.Laplacian(X, **kw)}[cname]()
+    rng = np.random.default_rng(3)
+
+    def rnd(sp):
+        if isinstance(sp, odl.ProductSpace):
+            return sp.element([rnd(s) for s in sp.spaces])
+        return sp.element(rng.standard_normal(sp.shape))
+    x, y = rnd(op.domain), rnd(op.domain)
+    additive = (op(x + y) - op(x) - op(y)).norm() < 1e-9 * (1 + op(x).norm()) and (op(2.5 * x) - 2.5 * op(x)).norm() < 1e-9 * (1 + op(x).norm())
+    if op.is_linear and not additive:
+        return '%s(pad_mode=%r, pad_const=%r).is_linear is True but the operator is not additive / homogeneous' % (cname, pad, c)
+    if additive and not op.is_linear:
+        return '%s(pad_mode=%r, pad_const=%r).is_linear is False but the operator is linear' % (cname, pad, c)
+    a = 0.5
+    lhs, rhs = (op * a)(x), op(a * x)
+    if (lhs - rhs).norm() > 1e-9 * (1 + rhs.norm()):
+        return '(%s(pad_mode=%r, pad_const=%r) * %r)(x) = %r but op(%r x) = %r' % (cname, pad, c, a, lhs, a, rhs)
+    return None
+
+
+def unit_ops_linear_flag_bounded():
+    """BOUNDED (never counted as proved): the constructors of the four operator classes are outside the deductive units (they are built field-wise there): their is_linear flag
+    must be truthful - it drives the shortcuts of the operator arithmetic (C04) - for every pad mode with a zero and a non-zero constant."""
+    def run(ctx):
+        for cname in CLASSES:
+            for pad in ('constant', 'symmetric', 'periodic', 'order0'):
+                for c in (0, 1.5):
+                    case = {'class': cname, 'pad_mode': pad, 'pad_const': c}
+                    try:
+                        bad = ops_linear_flag_case(case)
+                    except Exception as e:
+                        bad = 'raised %s: %s' % (type(e).__name__, e)
+                    ctx.bounded('difference operator: is_linear is truthful and (op * a)(x) == op(a x)', not bad, case, detail=bad)
+    return Unit('ops-native/linear-flag', run, funcs=[DO + c + '.__init__' for c in CLASSES], kind='B', bounded_in='4 classes x 4 pad modes x 2 constants on a 4 x 5 grid')
+
+
 def unit_canary():
     """must-fail: forward difference claimed for the backward method"""
     def run(ctx):
@@ -555,6 +607,7 @@ def units(tier, seed):
     for p in ('constant', 'symmetric_adjoint'):
         us.append(unit_op_call('Divergence', 'forward', p))
     us.append(unit_fd_native_bounded())
+    us.append(unit_ops_linear_flag_bounded())
     us.append(unit_canary())
     return us
 
@@ -600,6 +653,13 @@ def replay_class(ob):
 
 
 def replay(ob):
+    if ob['unit'].startswith('ops-native/'):
+        case = ob.get('model') or (ob.get('replay') or {}).get('case')
+        try:
+            bad = ops_linear_flag_case(case)
+        except Exception as e:
+            bad = 'raised %s: %s' % (type(e).__name__, e)
+        return {'reproduced': bool(bad), 'detail': bad or 'holds natively', 'input': case}
     if ob['unit'].startswith('fd-native/'):
         from contracts import replay_fd
         case = ob.get('model') or (ob.get('replay') or {}).get('case')
